@@ -33,6 +33,19 @@ def main():
         ctx.lean.build()
         res = mod.replay(ctx, body['case'])
         print(json.dumps(common.jsonable(res), indent=1, default=str)[:4000])
+        if isinstance(res, dict) and res.get('note') and not ctx.failing and not ctx.known_hit and 'seed' in body:
+            # the case depends on generated state (fitted surrogates, schedules): regenerate it — same seed, same tier, same code path
+            print('REPLAY: regenerating the run with VERIF_SEED=%s tier=%s' % (body['seed'], body.get('tier')))
+            ctx = Ctx(a.prop, body.get('tier', 'quick'), int(body['seed']))
+            ctx.lean.build()
+            ctx.driver_ok = True
+            mod.run(ctx)
+            if body.get('found_in_search') and not ctx.failing and hasattr(mod, 'search'):
+                ctx.in_search = True
+                mod.search(ctx)
+            same = [f for f in ctx.failing if common.canon(common.jsonable(f['case'])) == common.canon(body['case'])]
+            if same:
+                ctx.failing = same
         if ctx.failing:
             print('REPLAY: property %s FAILS on this case: %s' % (a.prop, ctx.failing[0]['what']))
             sys.exit(1)
@@ -77,6 +90,7 @@ def main():
     # ---- 3. broken proof / correspondence without a failing input: search harder ----
     if (ctx.proof_problems or ctx.corr_breaks) and not ctx.failing and hasattr(mod, 'search'):
         try:
+            ctx.in_search = True
             mod.search(ctx)
         except Infra as e:
             print('INFRA during search: %s' % e)
